@@ -60,6 +60,24 @@ Theorem C18_slice_length :
 Proof. exact (fun s => py_slice_length s). Qed.
 Print Assumptions C18_slice_length.
 
+(* slicing and + undo each other: s[:k] + s[k:] == s for EVERY integer k (negative and
+   out-of-range k included), and the two parts share the photons of s between them *)
+Theorem C18_slice_split :
+  forall (s : state) (k : Z),
+    st_add (st_slice s None (Some k)) (st_slice s (Some k) None) = s /\
+    (st_n_photons (st_slice s None (Some k)) + st_n_photons (st_slice s (Some k) None)
+      = st_n_photons s)%Z.
+Proof. exact (fun s k => conj (py_slice_split s k) (st_slice_split_photons s k)). Qed.
+Print Assumptions C18_slice_split.
+
+(* (s + t)[:len s] == s and (s + t)[len s:] == t *)
+Theorem C18_add_then_slice :
+  forall s t : state,
+    st_slice (st_add s t) None (Some (Z.of_nat (length s))) = s /\
+    st_slice (st_add s t) (Some (Z.of_nat (length s))) None = t.
+Proof. exact (fun s t => conj (py_slice_app_left s t) (py_slice_app_right s t)). Qed.
+Print Assumptions C18_add_then_slice.
+
 (* annotated states: equality is equality of per-mode label multisets *)
 Theorem C18_annotated_eq_iff_multisets :
   forall a b : list (list Z),
